@@ -10,7 +10,7 @@ TRUSTED = [
     'hand-written models Model/C22Memo.v (get / compute / set protocol of the process-wide set-only caches) and Model/C22Sched.v '
     '(Query._get_translator: get, compare fixed_param_values, pop(key, None), translate, set; decision table of the cross-session guards); tied on '
     'every run by replaying every enumerated schedule on real threads through an instrumented dict subclass installed in place of '
-    'db._translator_cache / core.string2ast_cache / core.adapted_sql_cache / decompiling.ast_cache, and comparing per-thread results, the log '
+    'db._translator_cache / db._constructed_sql_cache / core.string2ast_cache / core.adapted_sql_cache / decompiling.ast_cache / asttranslation.extractors_cache / utils.lambda_args_cache, and comparing per-thread results, the log '
     'of dict operations and the final cache with the model inside Coq (vm_compute)',
     'the harness (tools/c22_driver.py): deterministic scheduler (one managed thread runs at a time, one dict operation per grant, hard timeouts)',
     'a single dict operation (get / __setitem__ / __delitem__) is atomic under the GIL; threading.local gives each thread its own db2cache',
@@ -24,7 +24,7 @@ ASSUMPTIONS = [
     'reading the primary key and using the object as a query parameter (only the primary key is read) are outside the table',
 ]
 RULE = ('exhaustive: translator cache - every (warm value, two thread values) x every interleaving of 3 dict operations per thread, plus seeded '
-        'schedules of three threads; set-only caches (string2ast, adapt_sql, decompile) - input combinations with equal and different keys x every '
+        'schedules of three threads; set-only caches (string2ast, adapt_sql, decompile, extractors, lambda_args, constructed_sql) - input combinations with equal and different keys x every '
         'interleaving of two and three threads; cross-thread guard table - every (operation, loaded?) pair; non-trivial = at least two threads '
         'touched the dict between the first and last operation of some thread (a real interleaving) or a guard decision; distinct = distinct cases')
 
@@ -62,7 +62,7 @@ def gen_cases(ctx, deep=False):
         scheds = three if big else rng.sample(three, 120 if deep else 40)
         for sched in scheds:
             cases.append({'kind': 'translator', 'warm': warm, 'xs': xs, 'sched': sched})
-    for cache in ('string2ast', 'adapt_sql', 'decompile'):
+    for cache in ('string2ast', 'adapt_sql', 'decompile', 'extractors', 'lambda_args', 'constructed_sql'):
         for inputs in ([0, 2], [0, 1], [0, 0], [1, 3]):
             for sched in interleavings([2, 2]):
                 cases.append({'kind': 'setonly', 'cache': cache, 'inputs': inputs, 'sched': sched})
@@ -75,6 +75,7 @@ def gen_cases(ctx, deep=False):
 
 _cache = {}
 _variant = [None]
+_key_shape = [None]
 
 def case_key(c):
     return json.dumps(c, sort_keys=True)
@@ -88,6 +89,7 @@ def run_real(cases):
     if todo:
         out = vlib.run_impl('c22_driver.py', {'cases': todo}, timeout=1500)
         _variant[0] = out.get('variant')
+        _key_shape[0] = out.get('key_shape')
         for c, r in zip(todo, out['results']):
             _cache[case_key(c)] = r
         if out.get('error') or out.get('stuck'):
@@ -175,6 +177,10 @@ def correspondence(ctx):
     dist['translator_variant'] = _variant[0]
     if _variant[0] != 'pop':
         disagreements.append({'what': 'Query._get_translator no longer invalidates with `_translator_cache.pop(query_key, None)` (source variant: %s)' % _variant[0], 'input': 'source'})
+    want_shape = {'components': ['code_key', 'vartypes', 'left_join', 'filters'], 'looks_up_by_key': True, 'compares_fixed_values': True}
+    dist['translator_key_shape'] = _key_shape[0]
+    if _key_shape[0] != want_shape:
+        disagreements.append({'what': 'the translator cache key / lookup no longer has the shape of Model/C22Key.v', 'input': 'source', 'impl': _key_shape[0], 'model': want_shape})
     exprs, meta, nontriv = [], [], set()
     for c, r in zip(cases, results):
         if c['kind'] == 'cross':
@@ -286,7 +292,7 @@ LEVEL_TEXT = ('Machine-checked proof (Coq 8.16.1): (1) generic memo theorem - fo
               'of 12 recorded unguarded cases. Every run replays all schedules of two threads and seeded schedules of three threads on real threads '
               'through an instrumented dict and compares results, operation logs and final caches with the model by vm_compute.')
 LEVEL_NOTE = ('Partial: pre-emption inside one dict operation is the GIL\'s business (trusted); key soundness of each cache is a hypothesis (C05); '
-              'Database._constructed_sql_cache, extractors_cache, lambda_args_cache follow the same get/set shape but are not replayed; the guard table '
+              'all seven process-wide dict caches are replayed (utils.codeobjects, a write-once id registry, is not); the guard table '
               'is a finite decision table tied by execution, not derived from source. Trusted: Coq kernel + vm_compute; the scheduler harness.')
 TECHNIQUE = 'Coq invariant proofs over all schedules (generic memo table; translator cache protocol); vm_compute refutation witness; vm_compute correspondence with real threads under a deterministic dict-level scheduler; property oracle search'
 DESIGN_REF = 'DESIGN.md section 5, C22'
